@@ -344,7 +344,7 @@ func (p *Printer) bslashNewl() {
 
 func (p *Printer) spacedString(s string, pos Pos) {
 	p.spacePad(pos)
-	p.w.WriteString(s)
+	p.writeLit(s)
 	p.wantSpace = spaceRequired
 }
 
@@ -621,7 +621,7 @@ func (p *Printer) comments(comments ...Comment) {
 	if p.minify {
 		for _, c := range comments {
 			if fileutil.Shebang([]byte("#"+c.Text)) != "" && c.Hash.Col() == 1 && c.Hash.Line() == 1 {
-				p.w.WriteString(strings.TrimRightFunc("#"+c.Text, unicode.IsSpace))
+				p.writeLit(strings.TrimRightFunc("#"+c.Text, unicode.IsSpace))
 				p.w.WriteString("\n")
 				p.line++
 			}
@@ -811,7 +811,7 @@ func (p *Printer) paramExp(pe *ParamExp) {
 	case len(pe.Modifiers) > 0:
 		for _, lit := range pe.Modifiers {
 			p.w.WriteByte(':')
-			p.w.WriteString(lit.Value)
+			p.writeLit(lit.Value)
 		}
 	case pe.Slice != nil:
 		p.w.WriteByte(':')
@@ -862,7 +862,7 @@ func (p *Printer) cmdSubst(cs *CmdSubst) {
 	case cs.Backquotes && len(cs.Stmts) == 0 &&
 		len(cs.Last) == 1 && cs.Right.Line() == p.line:
 		p.w.WriteString("`#")
-		p.w.WriteString(cs.Last[0].Text)
+		p.writeLit(cs.Last[0].Text)
 		p.w.WriteString("`")
 	default:
 		p.w.WriteString("$(")
@@ -948,7 +948,7 @@ func (p *Printer) arithmExprRecurse(expr ArithmExpr, compact, spacePlusMinus boo
 		p.w.WriteByte(')')
 	case *FlagsArithm:
 		p.w.WriteByte('(')
-		p.w.WriteString(expr.Flags.Value)
+		p.writeLit(expr.Flags.Value)
 		p.w.WriteByte(')')
 		if expr.X != nil {
 			p.arithmExprRecurse(expr.X, compact, false)
